@@ -26,3 +26,32 @@ func borrow(c *Ctx, r *Report, run func(*Ctx, *Report), srcRule, dstRule string,
 		r.funcs[f] = true
 	}
 }
+
+// borrowClause is borrow restricted to one clause of the source rule: a failing obligation whose detail does not
+// mention the clause (relevant returns false) is about something this property does not state, and is recorded
+// as discharged here (the source property still reports it).
+func borrowClause(c *Ctx, r *Report, run func(*Ctx, *Report), srcRule, dstRule string, floor int, doc string, filter func(construct string) bool, relevant func(detail string) bool, suffix string) {
+	r.rule(dstRule, floor, doc)
+	sub := newReport("tmp", r.Tier)
+	run(c, sub)
+	n := 0
+	for _, o := range sub.obls {
+		if o.Rule != srcRule || (filter != nil && !filter(o.Construct)) {
+			continue
+		}
+		n++
+		detail, status := o.Detail, o.Status
+		if status != stOK && !relevant(detail) {
+			status, detail = stOK, "the clause borrowed holds (the source rule reports another clause)"
+		} else if status != stOK && suffix != "" {
+			detail += " (" + suffix + ")"
+		}
+		r.add(dstRule, o.Construct, status, o.Pos, detail)
+	}
+	if n == 0 {
+		r.cerr(dstRule, srcRule, "the borrowed rule produced no obligation")
+	}
+	for f := range sub.funcs {
+		r.funcs[f] = true
+	}
+}
